@@ -148,7 +148,6 @@ class _Host:
     def __init__(self, h):
         self.fh = G.FlatHost(h)
         self.model, self.graph, self.nodes = G.build_host(self.fh)
-        self.index = {n.name: i for i, n in enumerate(self.graph)}
         assert [n.name for n in self.graph] == [x[0] for x in self.fh.nodes]
 
 
@@ -164,7 +163,8 @@ def _freeze_impl(m):
             b[k] = ("attr", v.value)
         else:
             b[k] = ("tag", v)
-    return b, [n.name for n in m.nodes], [v.name if v is not None else None for v in m.outputs]
+    return (b, [n.name for n in m.nodes], [v.name if v is not None else None for v in m.outputs],
+            sorted(n.name for n in m.node_bindings.values()))
 
 
 def _freeze_spec(fh, sol):
@@ -223,27 +223,28 @@ def judge(pat, impl, host, root, remove, spec_cache):
     kind = None
     detail = None
     anymaybe = False
-    for (b, nodes, outs) in got:
+    for (b, nodes, outs, nb) in got:
         hit = [z for z in fz if z[0] == b and z[1] == set(nodes) and z[2] == outs]
+        d = {"got": _js((b, nodes, outs)), "spec_solutions": [_js(z) for z in fz[:4]]}
+        if set(nb) != set(nodes) and len(outs) == len(pat["outs"]):
+            # MatchResult.node_bindings (node-pattern -> node; drives the node-level checkers) must cover
+            # exactly the matched nodes
+            kind, detail = "wrong-bindings", dict(d, label="node-bindings-incomplete", fixed_kind=True,
+                                                  node_bindings=nb, what="match.nodes and match.node_bindings disagree")
+            break
         if hit:
             anymaybe = anymaybe or all(z[3] for z in hit)
             continue
-        d = {"got": _js((b, nodes, outs)), "spec_solutions": [_js(z) for z in fz[:4]]}
         # symptom labels (they name the finding, they do not decide it)
         if len(outs) != len(pat["outs"]):
             kind, detail = "false-match", dict(d, label="reported-without-output-values", fixed_kind=True,
                                                what="truthy MatchResult whose outputs list is shorter than the pattern's outputs")
             break
-        if len(set(nodes)) > _max_instance_nodes(pat):
-            kind, detail = "wrong-nodes", dict(d, label="more-nodes-than-node-patterns", fixed_kind=True,
-                                               what="match.nodes has more distinct nodes than any instance of the pattern has "
-                                                    "node-patterns: some node-pattern is bound to two host nodes")
-            break
-        if not cand:
-            if remove and any((_freeze_spec(fh, s)[0] == b) for s in allsols):
-                kind, detail = "removability", dict(d, what="matched although a matched node's value is used outside / is a graph output")
-            else:
-                kind, detail = "false-match", d
+        if remove and any(z[0] == b and z[1] == set(nodes) and z[2] == outs
+                          for z in (_freeze_spec(fh, s) for s in allsols)):
+            kind, detail = "removability", dict(d, what="matched although a matched node's value is used outside / is a graph output")
+        elif not cand:
+            kind, detail = "false-match", d
         elif any(z[0] == b and z[2] == outs for z in fz):
             kind, detail = "wrong-nodes", d
         else:
@@ -251,7 +252,7 @@ def judge(pat, impl, host, root, remove, spec_cache):
         break
     if kind is None and pat.get("commute") and _deterministic(pat) and not any(s[3] for s in cand):
         # every instance under some operand order must be found by some rule of the commuted set
-        found = {(_k(b), frozenset(n), tuple(o)) for b, n, o in got}
+        found = {(_k(b), frozenset(n), tuple(o)) for b, n, o, _ in got}
         want = {(_k(z[0]), frozenset(z[1]), tuple(z[2])) for z in fz}
         if found != want:
             kind, detail = "missed-match", {"what": "commuted rule set does not find every instance",
@@ -269,28 +270,6 @@ def _js(z):
     b = {k: (list(v) if isinstance(v, tuple) else v) for k, v in z[0].items()}
     return {"bindings": b, "nodes": sorted(z[1]) if isinstance(z[1], (set, frozenset)) else list(z[1]),
             "outputs": list(z[2])}
-
-
-def _max_instance_nodes(pat):
-    """Upper bound on the number of node-patterns an instance can use: reachable from the outputs taking, at
-    every OR, the alternative that reaches most."""
-    def reach(vp, seen):
-        if vp is None:
-            return seen
-        if vp[0] == "o":
-            if vp[1] in seen:
-                return seen
-            seen = seen | {vp[1]}
-            for x in pat["nodes"][vp[1]]["ins"]:
-                seen = reach(x, seen)
-            return seen
-        if vp[0] == "or":
-            return max((reach(a, seen) for a in vp[1]), key=len)
-        return seen
-    seen = frozenset()
-    for o in pat["outs"]:
-        seen = reach(o, seen)
-    return len(seen)
 
 
 def _has_bt_or(pat):
@@ -492,8 +471,8 @@ def execute(item):
                     counts["extra_evaluations"] += nrules
                     oc = f"{outcome}{'/rm' if remove else ''}{'/commute' if nrules > 1 or pat.get('commute') else ''}"
                     outcomes[oc] = outcomes.get(oc, 0) + 1
-                    if outcome.startswith("match"):
-                        positive = True
+                    if outcome.startswith("match") or (detail and (detail.get("spec_solutions") or detail.get("expected"))):
+                        positive = True      # the specification has an instance for this pair
                     if kind is not None:
                         mk = (pc, kind, remove)
                         if (detail or {}).get("label"):
